@@ -429,6 +429,17 @@ fn encode(run: &Run, thorough: bool, acc: &mut Acc) {
             }
         }
     }
+    // long inputs: sizes that cross the usual I/O chunk sizes (4096, 8192, 65536 bytes) with a word
+    // length that divides none of them
+    for (ci, (_, m)) in codes.iter().enumerate() {
+        let k = m.n - m.r;
+        for target in if thorough { vec![4096usize, 8192, 16384, 65536, 131072] } else { vec![8192usize, 65536] } {
+            for pat in [None, Some("1")] {
+                let words = target / k + 3;
+                jobs.push(json!({"code": ci, "pattern": pat, "words": words, "trailing": if ci == 0 { 1 } else { 0 }, "fill": 1}));
+            }
+        }
+    }
     let part = par_items(&jobs, |j, acc| {
         let (label, m) = &codes[j["code"].as_u64().unwrap() as usize];
         let n = m.n;
@@ -474,7 +485,7 @@ fn encode(run: &Run, thorough: bool, acc: &mut Acc) {
         }
         let o = run_cli(&a, 60);
         let key = format!("cli:encode:{}", tag);
-        let replay = json!({"kind": "cli", "args": a, "input": input});
+        let replay = if input.len() <= 64 { json!({"kind": "cli", "args": a, "input": input}) } else { json!({"kind": "cli", "args": a, "input_bytes": input.len(), "input_rule": "bytes[(i*7 + fill*3 + i/k) % (2 if fill even else 4)] of [0,1,2,255]"}) };
         let got = std::fs::read(&opath);
         match (o.status, got) {
             (Some(0), Ok(g)) => {
@@ -707,7 +718,7 @@ pub fn run(run: &Run) -> i32 {
         run,
         acc,
         Coverage {
-            rule: "real binary built from the working tree with the verification guard off; dvbs2: all 11 rates x --short (21 valid + the invalid 9/10 short) with stdout compared to Code::h() by digest and text, --girth for the two rate-1/2 codes (thorough: all), expected girths from the harness's own reference, not from the library, invalid rates/flags; ccsds: 4 rate strings x 4 block sizes (k = 16384 only 4/5 in quick), girth, ccsds-c2; mackay-neal and peg: a grid of (rows, cols, weights, uniform, min girth, search) x 3 seeds against the library result for that seed (for --search the seed printed on stderr); systematic: every 2x4 matrix and a slice (thorough: all) of 3x4 and 3x3 matrices as files, rank-deficient ones must give the error text; encode: 3 codes x every puncturing pattern up to length 4 (6; 9 for the 3x9 code, which contains the smallest pattern whose rate is inexact in binary) x 0..2 complete words x 0/1/k-1 trailing bytes x byte-value fills; ber: 4 Eb/N0 grids x BPSK/8PSK x outer-code threshold x decoders, result-file lines checked against the statistics identities, plus one run whose points last longer than the 500 ms report interval (the file must hold the final statistics); plus invalid invocations for every subcommand (non-zero status, message, no panic text). Every invocation under a 60-300 s watchdog. Each invocation is a distinct non-trivial case.".into(),
+            rule: "real binary built from the working tree with the verification guard off; dvbs2: all 11 rates x --short (21 valid + the invalid 9/10 short) with stdout compared to Code::h() by digest and text, --girth for the two rate-1/2 codes (thorough: all), expected girths from the harness's own reference, not from the library, invalid rates/flags; ccsds: 4 rate strings x 4 block sizes (k = 16384 only 4/5 in quick), girth, ccsds-c2; mackay-neal and peg: a grid of (rows, cols, weights, uniform, min girth, search) x 3 seeds against the library result for that seed (for --search the seed printed on stderr); systematic: every 2x4 matrix and a slice (thorough: all) of 3x4 and 3x3 matrices as files, rank-deficient ones must give the error text; encode: 3 codes x every puncturing pattern up to length 4 (6; 9 for the 3x9 code, which contains the smallest pattern whose rate is inexact in binary) x 0..2 complete words x 0/1/k-1 trailing bytes x byte-value fills, plus inputs just above 8192 and 65536 bytes (thorough: also 4096, 16384, 131072) for every code with and without a pattern; ber: 4 Eb/N0 grids x BPSK/8PSK x outer-code threshold x decoders, result-file lines checked against the statistics identities, plus one run whose points last longer than the 500 ms report interval (the file must hold the final statistics); plus invalid invocations for every subcommand (non-zero status, message, no panic text). Every invocation under a 60-300 s watchdog. Each invocation is a distinct non-trivial case.".into(),
             exhaustive: true,
             extra: timing,
             graph: None,
